@@ -35,7 +35,7 @@ MANIFEST_HEAD = {
         "guard": "verif",
         "enable": "go test -tags verif (the harness module /verif/harness replaces github.com/graphql-go/graphql with /repo)",
         "baseline_off_cmd": "cd /repo && GOFLAGS=-mod=mod GOPROXY=off GOSUMDB=off go test -vet=off -count=1 -timeout 25m ./...",
-        "source_commits": [],
+        "source_commits": ["be1118b"],
         "add_only": True,
     },
     "engines": [
@@ -185,3 +185,10 @@ prop("C06",
      assumptions=EXEC_ASSUME,
      runs=[dict(test="^TestC06$", quick=dict(checks=4000), thorough=dict(checks=40000, shards=16, timeout=3000)),
            dict(test="^TestC06_Gen$", quick=dict(checks=1500), thorough=dict(checks=15000, shards=16, timeout=3000))])
+
+prop("C19",
+     level_text="scaling search over document families (nesting depth through an abstract field x number of implementers, fragment chains, one fragment spread at n sites, dense fragment DAGs, fragments spreading each other twice per level through fields, n repetitions of a response key with sub-selections, input literals n deep / n wide, n mutually exclusive inline fragments, n aliases): work is read from step counters at the field-collection and field-pair-comparison sites (verif build tag) after ValidateDocument, PlanQuery and ExecutePlan; oracle = doubling ratio <= 12 on the ladder 4..64 (128 in thorough), a cubic envelope fixed at the smallest size, plan-time work identical for 2 / 8 / 32 / 128 implementers, and at most one planned runtime type per abstract value encountered at execution",
+     note="no wall-clock oracle; the counters are the only source hook (commit listed under hooks.source_commits); exponential blow-ups pass ratio 12 by n=16 in every family probed",
+     technique="property-based testing (rapid-drawn sizes) + fixed scaling ladders, metamorphic / growth-rate oracle on instrumented step counts",
+     rule="ladder: every family x sizes 4,8,16,32,64 (dense DAG families to 32); implementers: depth family at n in {4,16,48} x m in {2,8,32,128}; rapid: family x n in [5,64] x m in {2,4,16,64} against the cubic envelope. Every case with n >= 8 is non-trivial; distinct by (family, n, m).",
+     runs=[dict(test="^TestC19_", quick=dict(checks=300), thorough=dict(checks=3000, shards=4, timeout=3000))])
